@@ -24,7 +24,7 @@ from .C14 import stmts_sx
 LEVEL = 'other'
 UNITS = ['src/containers/grid/GridIndexMapping.cpp']
 ENGINES = 'E-ALG + E-STATE over romea-facts'
-TECHNIQUE = 'witness extents whose resolution has a non-integer reciprocal, structural reading of copy operations with loops (sweep H3), witness extents at the ends of the quantifier (1e-3 resolution, millions of cells), points a thousandth of a cell inside each border, locals of the index map and later re-assignments of the cell count, own formulas of a maximal-range constructor that does not delegate, exact rational evaluation of origin / count / table entry / index map on witness extents, bounded typestate exploration of the per-axis centre table over call sequences, sweep of every function read (and its in-repo callees) for frozen function-local statics, single precision inside double computations, lossy copy constructors, presence- or argument-keyed member caches, reference members bound to constructor arguments, loop accumulators that are members, members derived in the constructor and not refreshed by setters, results returned by reference to a member buffer, members filled from an argument under a condition that ignores it, hidden non-virtual base members, self-bound reference members, reductions that accumulate in float; pointers into own storage with compiler-generated copy operations, one rounding of the first cell on both sides of table and count; single-writer rule for the centre table over the per-axis loop, integer casts read as truncation (case split on the sign of the bound); formula extraction of origin / cell count / centre table / index map and exact algebra with floor = x - eps, ceil = x + delta (eps, delta in [0,1)); loop-carried floating accumulator lint'
+TECHNIQUE = 'origin / cell-count statements and the centre-table loop executed in IEEE double arithmetic on witness extents whose resolution is not a power of two (the cells must reach both bounds, N table entries one resolution apart), witness extents whose resolution has a non-integer reciprocal, structural reading of copy operations with loops (sweep H3), witness extents at the ends of the quantifier (1e-3 resolution, millions of cells), points a thousandth of a cell inside each border, locals of the index map and later re-assignments of the cell count, own formulas of a maximal-range constructor that does not delegate, exact rational evaluation of origin / count / table entry / index map on witness extents, bounded typestate exploration of the per-axis centre table over call sequences, sweep of every function read (and its in-repo callees) for frozen function-local statics, single precision inside double computations, lossy copy constructors, presence- or argument-keyed member caches, reference members bound to constructor arguments, loop accumulators that are members, members derived in the constructor and not refreshed by setters, results returned by reference to a member buffer, members filled from an argument under a condition that ignores it, hidden non-virtual base members, self-bound reference members, reductions that accumulate in float; pointers into own storage with compiler-generated copy operations, one rounding of the first cell on both sides of table and count; single-writer rule for the centre table over the per-axis loop, integer casts read as truncation (case split on the sign of the bound); formula extraction of origin / cell count / centre table / index map and exact algebra with floor = x - eps, ceil = x + delta (eps, delta in [0,1)); loop-carried floating accumulator lint'
 EXPLANATION = ('The constructor formulas (origin snapped to a cell centre, cell count from floor/ceil), the centre table fill and the index map are extracted and related by exact algebra; '
                'the margin of the extent bounds against the cell count is computed symbolically with floor/ceil slack variables. Floating-point behaviour at the bounds is not decided.')
 ASSUMPTIONS = ['exact real arithmetic for X1/X3', 'quantifier: float and double, up to 1e7 cells, |bounds| <= 1e3, resolution >= 1e-3']
